@@ -69,6 +69,14 @@ func md5Sum(in []*Term) array {
 		b[i] = byte(t.C)
 	}
 	out := make(array, md5.Size)
+	if conc && E.ghost["engine.md5.alluf"] != nil {
+		// verifMD5Uninterpreted(): an arbitrary digest even for concrete inputs (over-approximation of MD5)
+		E.StubsUsed["crypto/md5.Sum (uninterpreted function on every input)"] = true
+		for k, t := range md5UFBytes(in) {
+			out[k] = t
+		}
+		return out
+	}
 	if conc {
 		E.StubsUsed["crypto/md5.Sum (native on concrete input)"] = true
 		d := md5.Sum(b)
@@ -97,6 +105,12 @@ func md5Sum(in []*Term) array {
 }
 
 func init() {
+	// verifMD5Uninterpreted(): from here on (this path) md5.Sum is an uninterpreted function on concrete
+	// inputs too. Must be called before the first md5.Sum of the path.
+	verifFuncs["verifMD5Uninterpreted"] = func(fr *frame, a []value) value {
+		E.ghost["engine.md5.alluf"] = true
+		return nil
+	}
 	reg("crypto/md5.Sum", func(fr *frame, args []value) value {
 		return md5Sum(bytesToTerms(args[0]))
 	})
